@@ -624,24 +624,29 @@ def run_default_case(fi, gi, hand, route):
 FS_FILTERS = [lambda: Filter("name", "=", "n0"), lambda: Filter("type", "=", "identity"), lambda: Filter("name", "!=", "n1"), lambda: Filter("labels", "in", ["a", "b"])]
 
 
-def filterset_history(o1: int, f1: int, o2: int, f2: int, o3: int, f3: int, o4: int, f4: int) -> bool:
+def filterset_history(o1: int, f1: int, o2: int, f2: int, o3: int, f3: int) -> bool:
     """
-    pre: 0 <= o1 <= 1 and 0 <= o2 <= 1 and 0 <= o3 <= 1 and 0 <= o4 <= 1 and 0 <= f1 < 4 and 0 <= f2 < 4 and 0 <= f3 < 4 and 0 <= f4 < 4
+    pre: 0 <= o1 <= 2 and 0 <= o2 <= 2 and 0 <= o3 <= 2 and 0 <= f1 < 4 and 0 <= f2 < 4 and 0 <= f3 < 4
     post: _
     """
-    steps = [(pick(o1, 2), pick(f1, 4)), (pick(o2, 2), pick(f2, 4)), (pick(o3, 2), pick(f3, 4)), (pick(o4, 2), pick(f4, 4))]
+    steps = [(pick(o1, 3), pick(f1, 4)), (pick(o2, 3), pick(f2, 4)), (pick(o3, 3), pick(f3, 4))]
     with Native():
-        ok = run_filterset_history(steps)
+        ok = run_filterset_history(steps + [(0, steps[0][1])])        # ... and the first filter attached once more at the end
     V.reached()
     return ok
+
+
+_PARSED = []
 
 
 def run_filterset_history(steps):
     """op 0 = add (a NEW equal instance every time), 1 = remove; after every step the set holds exactly the model's filters, a MemorySource with the
     set attached answers as the naive evaluation of those filters, and so does a query that passes the set as its argument"""
+    if not _PARSED:
+        _PARSED.extend(stix2.parse(o) for o in POP)
+    objs = list(_PARSED)
     fset = FilterSet()
-    src = MemorySource([stix2.parse(o) for o in POP])
-    objs = [stix2.parse(o) for o in POP]
+    src = MemorySource(objs)
     model = []
     for op, fi in steps:
         f = FS_FILTERS[fi]()
@@ -650,6 +655,20 @@ def run_filterset_history(steps):
             src.filters.add(FS_FILTERS[fi]())
             if f not in model:
                 model.append(f)
+        elif op == 2:
+            # detach everything by handing the set to its own remove() (fi picks how: the set itself, a list copy, one by one)
+            if fi == 0:
+                fset.remove(fset)
+                src.filters.remove(src.filters)
+            elif fi == 1:
+                fset.remove(list(fset))
+                src.filters.remove(list(src.filters))
+            else:
+                for g in list(fset):
+                    fset.remove(g)
+                for g in list(src.filters):
+                    src.filters.remove(g)
+            model = []
         else:
             if f in model:
                 model.remove(f)
